@@ -206,7 +206,11 @@ def generate():
         "unlockStoresMax": "(unsigned long long)((%s) == UINT64_MAX)" % maxexpr,
         "unregisterStoresMax": "(unsigned long long)((%s) == UINT64_MAX)" % unreg_max,
         "defaultBlockSize": "::babylon::ConcurrentVector<::babylon::Epoch::Slot>::DEFAULT_BLOCK_SIZE",
-    }, prologue="#include <cstdint>")
+        # width of the scan bound: `auto number = accessor_number();` (text pinned by scanCountFromAccessorNumber)
+        # takes the return type of accessor_number(), which must be at least as wide as the id counter
+        "accessorNumberBytes": "sizeof(decltype(::std::declval<const ::babylon::Epoch&>().accessor_number()))",
+        "idCounterBytes": "sizeof(::std::declval<::babylon::Epoch&>()._id_allocator._next_value)",
+    }, prologue="#include <cstdint>\n#include <utility>")
     items.append(bool_def("slotInitIsMax", c["slotInit"] == 1))
     items.append(nat_def("slotInitLockTimes", c["slotInitLockTimes"]))
     items.append(nat_def("sizeofSlot", c["sizeofSlot"]))
@@ -214,5 +218,7 @@ def generate():
     items.append(bool_def("unlockStoresMax", c["unlockStoresMax"] == 1))
     items.append(bool_def("unregisterStoresMax", c["unregisterStoresMax"] == 1))
     items.append(nat_def("defaultBlockSize", c["defaultBlockSize"]))
+    items.append(nat_def("accessorNumberBytes", c["accessorNumberBytes"]))
+    items.append(nat_def("idCounterBytes", c["idCounterBytes"]))
     items.append("def maxVersion : Nat := 18446744073709551615")
     emit("Epoch", items)
